@@ -45,3 +45,22 @@ def replay_default_reader(record):
     if got != [record]:
         return True, 'read back %d records, first of %d bytes' % (len(got), len(got[0]) if got else 0), 'C03/default-reader'
     return False, 'ok', None
+
+
+def replay_configured_max(newmax, blocked, length):
+    from cardutil import mciipm, config
+    old = config.config.get('MAX_VBS_RECORD_LENGTH', 6000)
+    config.config['MAX_VBS_RECORD_LENGTH'] = newmax
+    try:
+        rec = ref.content(length)
+        f = io.BytesIO()
+        w = mciipm.VbsWriter(f, blocked=blocked)
+        w.write(rec)
+        w.close()
+        try:
+            got = list(mciipm.VbsReader(f, blocked=blocked))
+        except mciipm.MciIpmDataError as e:
+            return True, 'record of %d bytes refused although the configured maximum is %d: %s' % (length, newmax, e), 'C03/configured-max'
+    finally:
+        config.config['MAX_VBS_RECORD_LENGTH'] = old
+    return got != [rec], 'read back %d records' % len(got), 'C03/configured-max'
